@@ -432,6 +432,7 @@ TIES = {
     'C15': ('SrcRi.v', ['PyPrelude', 'PgmState', 'NpState', 'SrcUf', 'EquivUf', 'RiState', 'SrcRi', 'EquivRi'], 'EquivRi'),
     'C18': ('SrcSs.v', ['PyPrelude', 'PgmState', 'SsState', 'SrcSs', 'EquivSs'], 'EquivSs'),
     'C19': ('SrcPa.v', ['PyPrelude', 'PgmState', 'PaState', 'SrcPa', 'EquivPa'], 'EquivPa'),
+    'C09': ('SrcRp.v', ['PyPrelude', 'PgmState', 'RpState', 'SrcRp', 'EquivRp'], 'EquivRp'),
     'C07': ('SrcTr.v', ['PyPrelude', 'PgmState', 'TrState', 'SrcTr', 'EquivTr'], 'EquivTr'),
 }
 TIE_NEEDS = {'SrcWr.v': ['pgm'], 'SrcFc.v': ['pgm'], 'SrcDev.v': ['SrcAe.v'], 'SrcRi.v': ['SrcUf.v']}      # other generated files a group builds on
